@@ -14,8 +14,9 @@ CHECKS = {
              'source to z3 Real/Int terms with the documented contract of Decimal.quantize/round as the only stubs. Bounded verification, '
              'not proof.',
         note='Trusted: CrossHair models of int, z3 (two versions diffed on the E2 queries), the AST->z3 translator, contract stubs listed in '
-             'the evidence. Out (bug-hunting only, never counted): decimal and double operands through the evaluator, IEEE rounding of '
-             'inexact doubles, xs:float clamps, overflow to INF.',
+             'the evidence. idiv/mod for all rational dividends x 8 constant divisors x 9 carrier pairs are decided by E2. Bug-hunting only, never '
+             'counted: INF/NaN divisors, a table of 12 doubles that are not exact decimal ties x precision 0..3. Out: IEEE rounding of '
+             'inexact doubles in general, xs:float clamps, overflow to INF.',
         technique='SMT-based symbolic execution (CrossHair/z3) of the operator methods + AST->z3 translation of rounding kernels with contract stubs',
         design='DESIGN.md §4 C06'),
     'C08': dict(
@@ -24,7 +25,8 @@ CHECKS = {
              'list model; the index arithmetic of fn:subsequence is translated from source to z3 and decided for all rational arguments and positions; obligations are discharged only when CrossHair exhausts all paths. This is bounded verification, not proof: '
              'nothing is claimed beyond the per-obligation bounds listed in the evidence.',
         note='Trusted: CrossHair 0.0.110 models of int/str/list/Decimal, z3, the match-desugaring import hook (validated against the '
-             'test-suite). Out: node sequences (see C01), sequences longer than 3, inexact double arguments, sum/avg on doubles.',
+             'test-suite). for/some/every with 2-3 range expressions over NODE ranges (4-element tree, symbolic labels) are compared with the '
+             'list-comprehension model (focus of each range). Out: sequences longer than 3, inexact double arguments, sum/avg on doubles.',
         technique='SMT-based symbolic execution (CrossHair/z3) of evaluate() on parsed templates vs list-model oracle',
         design='DESIGN.md §4 C08'),
 }
@@ -34,11 +36,13 @@ CHECKS.update({
              'from the current source into z3 integer terms and proved equal to an independent civil-calendar day-number reference for '
              'every year in [-2^31, 2^31] (unsat queries, 3-seed z3 portfolio). Constructors, component accessors, 24:00:00 '
              'normalisation, yearMonthDuration addition with day clamping and fromdelta near the datetime range are executed '
-             'symbolically (CrossHair) and exhausted within stated field ranges. todelta/fromdelta/ordering/difference for far years '
-             'are bug-hunting only (not exhaustible within budget).',
+             'symbolically (CrossHair) and exhausted within stated field ranges. todelta for every dateTime with year in [10000, 2^31] and '
+             'every BCE year, get_timedelta/fromtimedelta for every microsecond multiple are decided by E2 on a contract model of datetime; '
+             'every timezone designator +-hh:mm round-trips (E1). fromdelta/ordering/difference for far years and adjust-*-to-timezone '
+             'over 7 offsets are bug-hunting only (not exhaustible within budget).',
         note='Trusted: the AST->z3 translator (validated on a concrete grid against the real functions on every run), z3, CrossHair\'s '
-             'pure-Python datetime model. Out: timezones and adjust-*-to-timezone, |year| > 2.7e6 for timeline conversion, fractional '
-             'seconds, XSD 1.0 BCE leap-year numbering.',
+             'pure-Python datetime model, the DTv/TDv contract model of datetime/timedelta used by E2. Out: adjust-*-to-timezone beyond the '
+             'bug-hunting offsets, |year| > 2.7e6 under CrossHair, XSD 1.0 BCE leap-year numbering.',
         technique='AST->z3 translation of calendar kernels vs civil-calendar reference (unsat) + CrossHair symbolic execution of the datatype classes',
         design='DESIGN.md §4 C11'),
     'C13': dict(
@@ -50,7 +54,8 @@ CHECKS.update({
              'disjointness for all 32 installable versions.',
         note='Trusted: CrossHair int/list models, z3. The invariant preserved by add() is the weak one (sorted, non-overlapping); merged '
              'canonical form after add() is known finding C13-add-unmerged; U+FEFF block overlap in Unicode 2.0-2.1.8 is known finding '
-             'C13-blocks-feff. Out: CharacterClass composition (covered at language level by C12), historical UCD equality.',
+             'C13-blocks-feff. CharacterClass add/discard/negation per escape class and a mutation history (no shared state between '
+             'instances) are included. Out: historical UCD equality.',
         technique='CrossHair/z3 symbolic execution of one set operation from an arbitrary valid pre-state + z3 QF_BV queries over the category/block tables',
         design='DESIGN.md §4 C13'),
 })
@@ -60,10 +65,14 @@ CHECKS['C12'] = dict(
          'thorough ~1400 patterns x XSD 1.0 / 1.1+dot-all / XPath anchored mode) the emitted Python regex is parsed with CPython\'s '
          're._parser and compared, as a z3 regular expression over a minterm alphabet, with the language built by an independent '
          'W3C-grammar reference parser: unsat = same language for every subject string of any length. Witnesses are replayed with '
-         're on the real pattern. fn:matches on symbolic subjects (len <= 3) by CrossHair; invalid patterns give FORX0002.',
+         're on the real pattern. The same for 162 back-reference patterns (back-references as uninterpreted letters), for all single-atom '
+         'patterns after a history of other translations, and for the i flag (40 atoms x 4 quantifiers + pairs; F&O 5.6.2 case-variant '
+         'rules). fn:matches on symbolic subjects (len <= 3) by CrossHair; invalid patterns give FORX0002.',
     note='Trusted: z3 sequence/regex theory, CPython sre parser, verif_lib/rx.py reference (XML Schema Part 2 app. F; classes from '
          'unicodedata). Known findings (excluded classes, each with its own witness): \\s/\\S and \\w/\\W outside classes, two negative '
-         'escapes in one class. Out: back-references, i/m/x flags, \\i \\c on astral code points, match positions.',
+         'escapes in one class; with the i flag: category escapes inside bracket expressions, class subtraction. Python\'s IGNORECASE '
+         'semantics on literals and sets is read off the re engine (target language). Out: semantics of back-references, m/x flags, '
+         'match positions.',
     technique='translation validation: z3 regex-language equivalence (minterm alphabet) of translate_pattern output vs reference grammar',
     design='DESIGN.md §4 C12')
 CHECKS['C10'] = dict(
@@ -85,7 +94,8 @@ CHECKS['C07'] = dict(
          'within the per-obligation bounds. Durations, doubles and the XPath 1.0 number conversion are bug-hunting only.',
     note='Trusted: CrossHair models of int/str/bool, desugared match statements. A symbolic str must not be the LEFT operand of a '
          'comparison with a foreign class (proxy returns TypeError instead of NotImplemented): harnesses keep symbolic strings on the '
-         'right. Out: inexact doubles, DoubleProxy10 tolerance, collations, date/time and binary operands.',
+         'right. Bug-hunting: a table of 8 inexact doubles x 10 decimals in both operand orders (decimal->double promotion), one-sided '
+         'timezones. Out: inexact doubles in general, DoubleProxy10 tolerance, collations, binary operands.',
     technique='SMT-based symbolic execution (CrossHair/z3) of comparison/logic templates vs definitional oracle; types enumerated, values symbolic',
     design='DESIGN.md §4 C07')
 CHECKS['C09'] = dict(
@@ -114,8 +124,9 @@ CHECKS['C16'] = dict(
          'higher-order calls; fold-left/right, for-each, filter, for-each-pair, apply, sort with key and its stability) are executed '
          'symbolically with captured values, arguments and sequences of <= 3 unbounded integers and compared with the direct-call '
          'expansion computed in Python.',
-    note='Trusted: CrossHair int/list models. Programs are enumerated, values symbolic. Out: collations in sort, recursion through '
-         'named user functions, function items crossing parser instances.',
+    note='Trusted: CrossHair int/list models. Programs are enumerated, values symbolic; sort with a collation argument, independent '
+         'partial applications and lexical scoping at the call site are included. Known finding C16-partial-of-partial. Out: recursion '
+         'through named user functions, function items crossing parser instances.',
     technique='SMT-based symbolic execution (CrossHair/z3) of enumerated function-item programs vs direct-call expansion',
     design='DESIGN.md §4 C16')
 CHECKS['C05'] = dict(
@@ -124,7 +135,9 @@ CHECKS['C05'] = dict(
          'executed symbolically with every variable value a solver variable over histories A, B, A of the same token: results equal '
          'the definitional values, the third evaluation equals the first, the caller\'s variables dict is unchanged, names unbound '
          'outside stay unbound (XPST0008). Selector.select = list(iter_select), repeatable across documents, on a 4-element tree '
-         'with symbolic labels whose structure, attributes and text are unchanged afterwards.',
+         'with symbolic labels whose structure, attributes and text are unchanged afterwards. Closures called under a re-binding of the '
+         'captured name return the captured value; sequences stored in maps/arrays (built by the expression or passed in by the caller) '
+         'are not extended by the comma operator.',
     note='Trusted: CrossHair int/str/dict models, pure-Python ElementTree under the solver (real ElementTree on replay). Out: schema '
          'objects, namespace maps, histories longer than 3; date/time variable immutability is bug-hunting only.',
     technique='SMT-based symbolic execution (CrossHair/z3) of enumerated binding programs over 3-step histories with symbolic values',
@@ -137,7 +150,8 @@ CHECKS['C18'] = dict(
          'reflexive/transitive on the enumerated set. 23 built-in functions are called with symbolic arguments and their results '
          'matched against the registered return type.',
     note='Trusted: CrossHair models; the reference type table in harness/c18.py. Types are enumerated, values symbolic. Out: schema '
-         'types, kind tests with arguments, node values, deep function tests, map(K,V)/array(T) tests.',
+         'types, deep function tests. map(K,V)/array(T)/function(*) tests and kind tests on element/attribute/text/comment nodes are '
+         'included; known finding C18-kindtest-instance-of.',
     technique='SMT-based symbolic execution (CrossHair/z3), one generated condition per (carrier, type); z3 over the subtype table',
     design='DESIGN.md §4 C18')
 CHECKS['C01'] = dict(
@@ -148,8 +162,8 @@ CHECKS['C01'] = dict(
          'nodes in document order equal to a reference evaluator of the XDM axis definitions, and leave the tree unchanged. The '
          'reference evaluator itself agrees with libxml2 on 214 812 concrete cases (validated offline, see DESIGN).',
     note='Trusted: CrossHair str/list models, pure-Python ElementTree under the solver (real ElementTree on replay), the reference '
-         'evaluator in harness/c01.py. Out: lxml trees and libxml2 agreement for all inputs, attribute/namespace axes, trees of more '
-         'than 5 elements, predicates other than position/last().',
+         'evaluator in harness/c01.py. Attribute templates (@k, [@k], ../@k with symbolic attribute presence) and position() predicates '
+         'are included. Out: lxml trees and libxml2 agreement for all inputs, namespace axis, trees of more than 5 elements.',
     technique='SMT-based symbolic execution (CrossHair/z3): shapes and templates enumerated, labels and positions symbolic, vs XDM reference evaluator',
     design='DESIGN.md §4 C01')
 CHECKS['C02'] = dict(
@@ -160,8 +174,10 @@ CHECKS['C02'] = dict(
          'links consistent, string values = concatenated descendant text; union/intersect/except, is, <<, >>, root, innermost, '
          'outermost on a 4-element tree with symbolic labels agree with identity and preorder.',
     note='Trusted: CrossHair models, pure-Python ElementTree. Known finding C02-string-value-order (mixed-content string value not in '
-         'document order) is excluded from the main condition and kept as a witness. Out: real lxml objects (stand-in not claimed), '
-         'document-level sibling comments/PIs, trees beyond the enumerated shapes.',
+         'document order) is excluded from the main condition and kept as a witness. Real lxml documents with document-level comments/'
+         'PIs, attributes and namespace declarations are driven with the COUNTS as solver variables (the lxml objects are concrete on '
+         'each path); Element/ElementTree roots under fragment None/True/False. Out: lxml trees with symbolic text, trees beyond the '
+         'enumerated shapes.',
     technique='SMT-based symbolic execution (CrossHair/z3) of build_node_tree and node operators with symbolic counts/strings/labels',
     design='DESIGN.md §4 C02')
 CHECKS['C14'] = dict(
@@ -171,8 +187,9 @@ CHECKS['C14'] = dict(
          'number equals 1 + the preceding siblings of the same expanded name / kind / PI target, fn:path(.) through the evaluator '
          'gives the same strings (relative to root() for element roots), and etree_iter_paths agrees with node.path.',
     note='Trusted: CrossHair str model, pure-Python ElementTree. The step numbering is the one XPath positional predicates apply (C01 '
-         'decides child::E[$n]). Out: re-evaluating the returned string under the solver (parser on symbolic text), attribute and '
-         'namespace node paths, namespaced names.',
+         'decides child::E[$n]). On real lxml documents with document-level and nested comments/PIs (counts symbolic) every path string '
+         'is re-evaluated as XPath 3.1 and must select exactly its node. Out: re-evaluating path strings with symbolic labels (parser '
+         'on symbolic text), attribute and namespace node paths, namespaced names.',
     technique='SMT-based symbolic execution (CrossHair/z3) of node.path / fn:path on enumerated arrangements with symbolic names',
     design='DESIGN.md §4 C14')
 CHECKS['C03'] = dict(
@@ -182,15 +199,17 @@ CHECKS['C03'] = dict(
          'are the only accepted outcomes, any other exception is a counterexample (replayed). Integer/string/boolean carriers are '
          'exhausted; decimal/double/string-to-number carriers are bug-hunting. Parse half, lexeme bodies only: for every string-literal '
          'body of length <= 2 (XPath 1.0 and 3.1) parse returns or raises ElementPathError and the same parser instance then parses '
-         'fixed expressions exactly like a fresh instance.',
+         'fixed expressions exactly like a fresh instance; the same for EVERY whole source of length <= 1 over printable ASCII. No call '
+         'hangs: collation-failure histories on a stub locale module (installed locales chosen by the solver) leave the only lock free.',
     note='Trusted: CrossHair models. Out and stated: arbitrary source strings beyond lexeme bodies (the tokenizer regex is out of reach '
-         'for symbolic text), RecursionError/hangs, documents as context, comment bodies and braced URIs only as bug-hunting.',
+         'for symbolic text), RecursionError, documents as context, comment bodies and braced URIs only as bug-hunting.',
     technique='SMT-based symbolic execution (CrossHair/z3): exception-freedom of enumerated templates on symbolic arguments; symbolic lexeme bodies',
     design='DESIGN.md §4 C03')
 CHECKS['C17'] = dict(
     text='JSON string-escaping kernels only: for every string of length <= 1 over all 0x110000 code points (length 2 as bug-hunting) '
          'unescape_json_string(escape_json_string(s)) = s, the escaped text is well-formed JSON string content and an independent '
-         'decoder (Python json) reads it back as s - executed symbolically by CrossHair/z3. API-level round trips '
+         'decoder (Python json) reads it back as s - executed symbolically by CrossHair/z3, one obligation per code-point class (controls, '
+         'quote/backslash, ASCII, BMP, surrogates, astral); the XML code-point predicate used by the serializer. API-level round trips '
          '(parse-json(serialize(v)), xml-to-json(json-to-xml(t))) are run as bug-hunting only.',
     note='Trusted: CrossHair str/json models. Out (stated): XML round trip parse-xml(serialize(node)) (expat is C code on bytes), JSON '
          'value round trips beyond bug-hunting, number formatting of decimals and doubles.',
@@ -202,7 +221,9 @@ CHECKS['C19'] = dict(
          '10 collation URIs (code point, HTML, UCA with lang/fallback yes/no/invalid, bare locale names, malformed) x 8 '
          'collation-taking functions, after each evaluation - returned or raised - the collation lock is observed free, LC_COLLATE is '
          'the initial one, the exception (if any) is an ElementPathError, the second result equals the one obtained alone, and '
-         'os.environ is unchanged. environment-variable() and available-environment-variables() are empty for every symbolic name.',
+         'os.environ is unchanged; 4 histories with the INITIAL process locale chosen by the solver from 5. environment-variable() and '
+         'available-environment-variables() are empty for every symbolic name. Entity declarations behind up to 140 000 characters of '
+         'prolog are rejected (bug-hunting: expat is C code).',
     note='Trusted: the locale stub implements the documented setlocale/getlocale contract; CrossHair is single-threaded. Out '
          '(stated): thread interleavings of independent Selectors, entity expansion in fn:parse-xml (expat, C code), the real C locale '
          'library, the decimal context.',
